@@ -695,7 +695,7 @@ def binding_part(v, tier, cov):
     s0 = vlib.seed() * 100000
     kmax = 4 if quick else 8
     shapes = [(2, 1), (2, 2), (3, 2), (3, 3), (2, 3), (3, 1)]
-    nrand, nsteps = (64, 9) if quick else (420, 14)
+    nrand, nsteps = (48, 9) if quick else (420, 14)
     jobs = [(s0 + 700, 2, 1, 3, "f8", 0, None)]
     for i in range(nrand):
         nd, np_ = shapes[i % len(shapes)]
